@@ -18,11 +18,33 @@ def call(name, *args):
     return ("call", name, tuple(args))
 
 
+_FX = None
+
+
+def use(fx):
+    global _FX
+    _FX = fx
+
+
+def rp(name):
+    """actual path of the private parser function in the role `name` (by name, else by signature/structure)"""
+    r = A.func(_FX, "mapping", name) if _FX is not None else []
+    return r[0] if len(r) == 1 else MOD + name
+
+
+def role_of(path):
+    for n in COMB + ("parse_proguard_header", "parse_proguard_field_or_method", "parse_proguard_class", "parse_proguard_record"):
+        if rp(n) == path:
+            return n
+    return path.replace(MOD, "")
+
+
 def opq(q):
-    return q.startswith(MOD) and q.split("::")[-1] in COMB
+    return q in {rp(n) for n in COMB}
 
 
-def ev(fx, rep, rule, key, path, opaque=opq):
+def ev(fx, rep, rule, key, path, opaque=None):
+    opaque = opaque or opq
     rep.fn(path)
     sy = S.Sym(fx, opaque=opaque)
     try:
@@ -72,7 +94,7 @@ def term_set(fx, sy, t, depth):
         return {t[2][2]}, set()
     if t[0] == "bool":
         return term_set(fx, sy, t[1], depth)
-    if t[0] == "call" and t[1] == MOD + "is_newline" and t[2] == (("bound", 0),):
+    if t[0] == "call" and t[1] == rp("is_newline") and t[2] == (("bound", 0),):
         return set(NL), set()
     if t[0] == "call" and t[1] == "std::ops::Fn::call" and t[2][1] == ("tuple", (("bound", 0),)):
         return set(), {S.tstr(t[2][0])}
@@ -82,6 +104,7 @@ def term_set(fx, sy, t, depth):
 
 
 def is_newline_set(fx, rep, rule):
+    use(fx)
     p = A.one(rep, rule, "mapping::is_newline", A.func(fx, "mapping", "is_newline"))
     if not p:
         return False
@@ -95,6 +118,7 @@ def is_newline_set(fx, rep, rule):
 
 # ---- combinator shapes (C06.2a suffix property, C05.6) ---------------------------------------------------------------
 def check_combinators(fx, rep, rule):
+    use(fx)
     b_ = ("in", "bytes")
     ok_all = True
 
@@ -199,12 +223,12 @@ def check_combinators(fx, rep, rule):
                     return ("lit", "bytes", b"")
                 bad, n = fc.compare_paths(res, refc, lambda st, out: out[1])
                 t = M.closure_term(sy, clo, 1, S.St(), {"sp": "?"})
-                good = not bad and t == ("not", call(MOD + "is_newline", ("bound", 0)))
+                good = not bad and t == ("not", call(rp("is_newline"), ("bound", 0)))
             rep.check(rule, "%s/consume_leading_newlines" % rule, good, loc=F.short_file(fx.bodies[cl[0]]["sp"]),
                       found="%d paths" % len(res), expected="bytes[first non-newline ..] or the empty slice: a suffix of the cursor")
             ok_all = ok_all and good
     # split_line
-    posn = call("std::iter::Iterator::position", call("core::slice::iter", b_), ("fnref", MOD + "is_newline", fx.bodies.get(MOD + "is_newline", {}).get("dp")))
+    posn = call("std::iter::Iterator::position", call("core::slice::iter", b_), ("fnref", rp("is_newline"), fx.bodies.get(rp("is_newline"), {}).get("dp")))
 
     def ref_split(o):
         if o(("is", posn, "Some")):
@@ -229,13 +253,13 @@ def check_combinators(fx, rep, rule):
             good = False
             if len(clos) == 1:
                 clo = list(clos)[0]
-                pu_ = call(MOD + "parse_until", b_, clo)
+                pu_ = call(rp("parse_until"), b_, clo)
 
                 def refn(o):
                     if not o(("is", pu_, "Ok")):
                         return err(mk_payload(pu_, "Err", "0"))
                     sl, rest = mk_field(mk_payload(pu_, "Ok", "0"), "0"), mk_field(mk_payload(pu_, "Ok", "0"), "1")
-                    if (not o(("empty", rest))) and o(("bool", call(MOD + "is_newline", ("index", rest, lit_int(0))))):
+                    if (not o(("empty", rest))) and o(("bool", call(rp("is_newline"), ("index", rest, lit_int(0))))):
                         return perr(call("core::str::as_bytes", sl), ERRK)
                     return ok(("tuple", (sl, rest)))
                 bad, n = fc.compare_paths(res, refn, lambda st, out: out[1])
@@ -259,17 +283,17 @@ def unfold_chain(rest):
     while True:
         if t == ("in", "bytes"):
             break
-        if t[0] == "call" and t[1] == MOD + "consume_leading_newlines":
+        if t[0] == "call" and t[1] == rp("consume_leading_newlines"):
             steps.append(("skipnl", t, None))
             t = t[2][0]
             continue
-        if t[0] == "payload" and t[2] == "Ok" and t[1][0] == "call" and t[1][1] == MOD + "parse_prefix":
+        if t[0] == "payload" and t[2] == "Ok" and t[1][0] == "call" and t[1][1] == rp("parse_prefix"):
             steps.append(("lit", t[1], t[1][2][1]))
             t = t[1][2][0]
             continue
         if t[0] == "field" and t[2] == "1" and t[1][0] == "payload" and t[1][2] == "Ok" and t[1][1][0] == "call":
             c = t[1][1]
-            nm = c[1].replace(MOD, "")
+            nm = role_of(c[1])
             if nm == "parse_usize":
                 steps.append(("usize", c, None))
             elif nm in ("parse_until", "parse_until_no_newline"):
@@ -327,16 +351,16 @@ def skeletons(fx, rep, rule, name, sy, res):
         # every combinator call mentioned in the path conditions must use a cursor on the chain
         attempts = {}   # position index -> list of failed attempts
         for a, pol in st.conds:
-            if a[0] == "is" and a[2] == "Ok" and a[1][0] == "call" and a[1][1].startswith(MOD):
+            if a[0] == "is" and a[2] == "Ok" and a[1][0] == "call" and (a[1][1] in {rp(n_) for n_ in COMB}):
                 c = a[1]
                 cur = c[2][0]
                 if cur not in positions:
-                    problems.append("STALE CURSOR: %s is applied to %s, which is not the current position" % (c[1].replace(MOD, ""), S.tstr(cur)[:160]))
+                    problems.append("STALE CURSOR: %s is applied to %s, which is not the current position" % (role_of(c[1]), S.tstr(cur)[:160]))
                     continue
                 i = positions.index(cur)
                 if pol:
                     if c not in chain_calls:
-                        problems.append("result of %s is checked but its rest is not threaded on" % c[1].replace(MOD, ""))
+                        problems.append("result of %s is checked but its rest is not threaded on" % role_of(c[1]))
                     elif chain_calls.index(c) != i:
                         problems.append("step order differs from cursor order")
                 else:
@@ -357,7 +381,7 @@ def skeletons(fx, rep, rule, name, sy, res):
 
 
 def describe(fx, sy, c):
-    nm = c[1].replace(MOD, "")
+    nm = role_of(c[1])
     if nm == "parse_prefix":
         return ("lit", lit_bytes(c[2][1]))
     if nm == "parse_usize":
@@ -442,6 +466,7 @@ def ref_member_language():
 
 
 def check_member_parser(fx, rep, rule):
+    use(fx)
     p = A.one(rep, rule, "mapping::parse_proguard_field_or_method", A.func(fx, "mapping", "parse_proguard_field_or_method"))
     if not p:
         return None
@@ -517,6 +542,7 @@ def check_member_parser(fx, rep, rule):
 
 
 def check_class_parser(fx, rep, rule):
+    use(fx)
     p = A.one(rep, rule, "mapping::parse_proguard_class", A.func(fx, "mapping", "parse_proguard_class"))
     if not p:
         return None
@@ -538,6 +564,7 @@ def check_class_parser(fx, rep, rule):
 
 
 def check_header_parser(fx, rep, rule):
+    use(fx)
     p = A.one(rep, rule, "mapping::parse_proguard_header", A.func(fx, "mapping", "parse_proguard_header"))
     if not p:
         return None
@@ -603,15 +630,16 @@ def all_scans_line_bounded(rep, rule, sks):
 
 # ---- dispatcher, iterator, try_parse (C05.1, C05.7, C06.2c/d, C06.4) ------------------------------------------------------------
 def check_dispatch(fx, rep, rule):
+    use(fx)
     p = A.one(rep, rule, "mapping::parse_proguard_record", A.func(fx, "mapping", "parse_proguard_record"))
     if not p:
         return
-    parsers = {nm: MOD + nm for nm in ("parse_proguard_header", "parse_proguard_field_or_method", "parse_proguard_class")}
+    parsers = {nm: rp(nm) for nm in ("parse_proguard_header", "parse_proguard_field_or_method", "parse_proguard_class")}
     sy, res = ev(fx, rep, rule, "%s/dispatch" % rule, p, opaque=lambda q: opq(q) or q in parsers.values())
     if res is None:
         return
     b0 = ("in", "bytes")
-    cur = call(MOD + "consume_leading_newlines", b0)
+    cur = call(rp("consume_leading_newlines"), b0)
 
     def ref(o):
         if o(("bool", call("core::slice::starts_with", cur, ("lit", "bytes", b"#")))):
@@ -623,7 +651,7 @@ def check_dispatch(fx, rep, rule):
         if o(("is", r, "Ok")):
             t = mk_payload(r, "Ok", "0")
             return ("tuple", (ok(mk_field(t, "0")), mk_field(t, "1")))
-        sl = call(MOD + "split_line", cur)
+        sl = call(rp("split_line"), cur)
         return ("tuple", (err(("adt", "ParseError", "ParseError", (("line", mk_field(sl, "0")), ("kind", ("adt", "ParseErrorKind", "ParseError",
                                                                                                      (("0", ("lit", "str", "line is not a valid proguard record")),)))))), mk_field(sl, "1")))
     bad, n = fc.compare_paths(res, ref, lambda st, out: out[1])
@@ -635,7 +663,8 @@ def check_iterator(fx, rep, rule):
     p = A.one(rep, rule, "ProguardRecordIter::next", A.method(fx, "mapping::ProguardRecordIter", "next", trait="Iterator"))
     if not p:
         return
-    rec = MOD + "parse_proguard_record"
+    use(fx)
+    rec = rp("parse_proguard_record")
     sy, res = ev(fx, rep, rule, "%s/iterator" % rule, p, opaque=lambda q: q == rec)
     if res is None:
         return
@@ -662,7 +691,8 @@ def check_try_parse(fx, rep, rule):
     p = A.one(rep, rule, "ProguardRecord::try_parse", A.method(fx, "mapping::ProguardRecord", "try_parse"))
     if not p:
         return
-    rec = MOD + "parse_proguard_record"
+    use(fx)
+    rec = rp("parse_proguard_record")
     sy, res = ev(fx, rep, rule, "%s/try_parse" % rule, p, opaque=lambda q: q == rec)
     if res is None:
         return
